@@ -299,6 +299,17 @@ static void run() {
         { Case c{18, true, true, 0, N, {}, sc, 3, 0, 3}; run_case(c); }
         vp::cls("long-run-of-one-transient-behaviour", 5);
     }
+    // every error number a driver can report: 1..4095 except the two that mean "try again" - a hard error is returned unchanged, whatever its number
+    for (int e = 1; e <= 4095; e++) {
+        if (e == EINTR || e == EAGAIN) continue;
+        if (idx++ % a.nshards != a.shard) continue;
+        for (int api = 0; api < 2; api++) for (int chunk = 0; chunk < 2; chunk++) {
+            if (e > 260 && (api + chunk + e) % 4) continue;   // beyond the defined range: one of the four combinations each
+            std::vector<int> sc = {2, -e};
+            Case c{api, (bool)chunk, (bool)chunk, 6, 0, sc, sc, 0, 0, 0}; run_case(c);
+        }
+        vp::nontrivial(vp::mix((uint64_t)e, 7171)); vp::cls("every-error-number");
+    }
     // plumbing: structured grid
     static const std::vector<std::vector<int>> PS = {{}, {1}, {1, 1, 2}, {2, 1, 3}, {3, 3}, {1, ep::ALL, 1}, {HARD}, {ep::ALL, HARD}, {1, 2, HARD}, {2, 2, 2, 2, HARD}};
     for (int api = 10; api <= 20; api++)
